@@ -449,12 +449,36 @@ func c02FromTracker(v ssa.Value, depth int) bool {
 	if depth > 3 {
 		return false
 	}
-	if derivesFromCall(v, nTryCommit, 0, 0) || derivesFromCall(v, "(*sync.Map).LoadOrStore", 0, 0) {
+	if derivesFromCall(v, nTryCommit, 0, 0) {
 		return true
+	}
+	for _, n := range []string{"(*sync.Map).LoadOrStore", "(*sync.Map).Load", "(*sync.Map).LoadAndDelete", "(*sync.Map).Swap"} {
+		if derivesFromCall(v, n, 0, 0) {
+			return true
+		}
 	}
 	for _, r := range Roots(v) {
 		prm, ok := r.(*ssa.Parameter)
-		if !ok || prm.Parent().Parent() == nil {
+		if !ok {
+			continue
+		}
+		if prm.Parent().Parent() == nil {
+			// parameter of a named function: what its call sites pass
+			if c02P == nil {
+				continue
+			}
+			idx := -1
+			for i, q := range prm.Parent().Params {
+				if q == prm {
+					idx = i
+				}
+			}
+			for _, site := range c02CallSitesIn(c02P, prm.Parent()) {
+				_, off := c02CalleeOf(site)
+				if a := site.Common().Args; idx-off >= 0 && idx-off < len(a) && c02FromTracker(a[idx-off], depth+1) {
+					return true
+				}
+			}
 			continue
 		}
 		f := prm.Parent()
@@ -536,15 +560,17 @@ func c02R2(c *Ctx) {
 	const R2 = "C02.R2.done-closed-only-on-success"
 	c.Expect(R2, 1)
 	found := 0
-	for _, pkg := range []string{"", "internal/status", "internal/syncutil", "internal/graph"} {
+	for _, pkg := range c02TrackerPkgs {
 		for _, f := range c.P.FuncsOfPkg(pkg) {
-			for _, cl := range CallsTo(f, "builtin:close") {
-				arg := cl.Common().Args[0]
-				if !c02FromTracker(arg, 0) {
-					continue
-				}
+			// close sites: close(x) itself, and calls of in-module helpers that
+			// close the channel they receive (Tracker.Abort(desc, done), a local
+			// closure, ...) — who-may-close over every value flowing from the tracker
+			for _, cl := range c02CloseSites(c.P, f) {
 				found++
 				key := FnName(f) + "|close"
+				if CalleeName(cl) != "builtin:close" {
+					key = FnName(f) + "|close-via:" + CalleeName(cl)
+				}
 				_, closeDeferred := cl.(*ssa.Defer)
 				par := f.Parent()
 				deferred := false
@@ -635,6 +661,7 @@ func c02R2(c *Ctx) {
 	if found == 0 {
 		c.LostAnchor(R2, "close() of a tracker channel")
 	}
+	c02TrackerStores(c)
 }
 
 // ---------- R3 ----------
@@ -910,6 +937,14 @@ func c02Go(c *Ctx) {
 }
 
 var c02Mutants = []Mutant{
+	{Name: "abort-closes-done-on-failure", File: "copy.go",
+		Old:    "\t\t\tif err == nil {\n\t\t\t\t// mark the content as done on success\n\t\t\t\tclose(done)\n\t\t\t}",
+		New:    "\t\t\tabort := func(ch chan struct{}) { close(ch) }\n\t\t\tif err == nil {\n\t\t\t\tclose(done)\n\t\t\t} else {\n\t\t\t\tabort(done)\n\t\t\t}",
+		Expect: "C02.R2"},
+	{Name: "tracker-stores-closed-channel", File: "internal/status/tracker.go",
+		Old:    "\tstatus, exists := t.status.LoadOrStore(key, make(chan struct{}))",
+		New:    "\tch := make(chan struct{})\n\tif target.Size == 0 {\n\t\tclose(ch)\n\t}\n\tstatus, exists := t.status.LoadOrStore(key, ch)",
+		Expect: "C02.R2"},
 	{Name: "duplicate-name-wraps-already-exists", File: "content/file/errors.go",
 		Old:    "import \"errors\"\n\nvar (\n\tErrMissingName             = errors.New(\"missing name\")\n\tErrDuplicateName           = errors.New(\"duplicate name\")",
 		New:    "import (\n\t\"errors\"\n\t\"fmt\"\n\n\t\"oras.land/oras-go/v2/errdef\"\n)\n\nvar (\n\tErrMissingName             = errors.New(\"missing name\")\n\tErrDuplicateName           = fmt.Errorf(\"duplicate name: %w\", errdef.ErrAlreadyExists)",
